@@ -109,7 +109,8 @@ def predicate(case, i, tb, stale_candidates):
 def new_case(sess, rng, tb, **over):
     g = None
     if rng.random() < 0.7: g = gen_mapping(rng)
-    cfg = {'gmap': g, 'rm': int(rng.random() < 0.5), 'no_open': int(rng.random() < 0.3), 'no_opendir': int(rng.random() < 0.3)}
+    cfg = {'gmap': g, 'rm': int(rng.random() < 0.5), 'no_open': int(rng.random() < 0.3), 'no_opendir': int(rng.random() < 0.3),
+           'no_writeback': int(rng.random() < 0.2), 'killpriv_v2': int(rng.random() < 0.2), 'no_readdir': int(rng.random() < 0.2), 'seal_size': int(rng.random() < 0.2)}
     cfg.update(over)
     return Case(sess, cfg, tb)
 
